@@ -29,6 +29,17 @@ def bytes_repr(data: bytes) -> str:
     return bytes_repr_(data, False, None)
 
 
+def _json_value(value: Any) -> Any:
+    # bytes are not JSON serialisable, wherever they are nested
+    if isinstance(value, bytes | bytearray):
+        return bytes_repr(value)
+    if isinstance(value, list | tuple):
+        return [_json_value(v) for v in value]
+    if isinstance(value, dict):
+        return {k: _json_value(v) for k, v in value.items()}
+    return value
+
+
 schema_version = "4.0"
 
 DB_SCHEMA = f"""
@@ -368,16 +379,7 @@ class DBHandler:
 
         for attr, value in request.__dict__.items():
             if not attr.startswith("_"):
-                request_attributes[attr] = value
-
-                if isinstance(value, bytes | bytearray):
-                    request_attributes[attr] = bytes_repr(value)
-                elif (
-                    isinstance(value, list)
-                    and len(value) > 0
-                    and isinstance(value[0], bytes | bytearray)
-                ):
-                    request_attributes[attr] = [bytes_repr(v) for v in value]
+                request_attributes[attr] = _json_value(value)
 
         if response is not None:
             response_attributes = {"service_id": response.service_id}
@@ -390,16 +392,7 @@ class DBHandler:
 
             for attr, value in response.__dict__.items():
                 if not attr.startswith("_") and attr not in ["trigger_request"]:
-                    response_attributes[attr] = value
-
-                    if isinstance(value, bytes | bytearray):
-                        response_attributes[attr] = bytes_repr(value)
-                    elif (
-                        isinstance(value, list)
-                        and len(value) > 0
-                        and isinstance(value[0], bytes | bytearray)
-                    ):
-                        response_attributes[attr] = [bytes_repr(v) for v in value]
+                    response_attributes[attr] = _json_value(value)
 
         query = (
             "INSERT INTO scan_result(run, state, request_pdu, request_time, request_timezone, request_data, "
